@@ -122,8 +122,8 @@ var properties = map[string]propSpec{
 	},
 	"C10": {
 		Bounds: [2]map[string]any{
-			{"queries": "36 + 32 malformed/unsupported/failing templates (INTO joins with unmatched rows, AWAIT forms, dual, selector functions and pipes in FROM, type-confused operands) × option combinations on a small symbolic document; every built-in function × 14 argument lists (wrong counts, wrong kinds, NULL) × {plain, ASYNC, SPIN, ONCE} × {select list, WHERE}", "preprocessors": "every byte string ≤5 over {\" ' ` \\ [ ] a 0xC3}", "goroutines": "ASYNC/SPIN/SPINASYNC calls of failing and panicking functions, PARALLEL joins with failing ON: every schedule with ≤1 preemption"},
-			{"queries": "same", "preprocessors": "≤7 bytes", "goroutines": "same"},
+			{"queries": "36 + 32 malformed/unsupported/failing templates (INTO joins with unmatched rows, AWAIT forms, dual, selector functions and pipes in FROM, type-confused operands) × option combinations on a small symbolic document; every built-in function × 14 argument lists (wrong counts, wrong kinds, NULL) × {plain, ASYNC, SPIN, ONCE, SPINASYNC, GLOBAL, SCOPED} × {select list, WHERE}; single-character mutants (9 replacements or deletion at every position) of every fourth listed query", "preprocessors": "every byte string ≤5 over {\" ' ` \\ [ ] a 0xC3}", "goroutines": "ASYNC/SPIN/SPINASYNC calls of failing and panicking functions, PARALLEL joins with failing ON: every schedule with ≤1 preemption"},
+			{"queries": "same; mutants of every listed query", "preprocessors": "≤7 bytes", "goroutines": "same"},
 		},
 		Outside: []string{"sqlparser.Parse on arbitrary bytes: the generated LALR parser is not encodable, so 'all byte strings as queries' is covered only through the template list"},
 	},
